@@ -104,6 +104,17 @@ fn main() {
                         *store.get_factor_mut("order_fee_discount_for_referred_user").expect("factor key") = f;
                         steps.push(format!("SRef {}", z(f)));
                     }
+                    4 if rng.chance(1, 4) => {
+                        // a second init must be refused and must not reset max_rank / the table
+                        let n = rng.below(17) as usize;
+                        let mut rk: Vec<u64> = Vec::new(); let mut c = 0u64;
+                        for _ in 0..n { c += 1 + rng.below(1000); rk.push(c); }
+                        let gs2 = rng.below(3);
+                        let r = hk::gt_init(&mut store, 7, UNIT, UNIT, gs2, &rk);
+                        let code = match &r { Ok(()) => 0, Err(e) => prog_code(e) };
+                        let rz: Vec<String> = rk.iter().map(|x| x.to_string()).collect();
+                        steps.push(format!("SInit [{}] {gs2} {code}", rz.join("; ")));
+                    }
                     4 => {
                         let rank = match rng.below(6) { 0 => max_rank as u8 + 1, 1 => 255, 2 => 16, _ => rng.below(max_rank as u64 + 1) as u8 };
                         let r = hk::gt_order_fee_discount_factor(&store, rank);
